@@ -96,6 +96,11 @@ func init() {
 		{Harness: pkgWitness + ".VerifConcurrent", Quick: p("threads", 2, "logs", 1, "signers", 1, "maxproof", 1, "store", 0), Thorough: p("threads", 3, "logs", 2, "signers", 1, "maxproof", 1, "store", 0), Covers: append([]string{"conc/storage-conflict"}, concCovers...)},
 		{Harness: pkgWitness + ".VerifConcurrent", Quick: p("threads", 2, "logs", 1, "signers", 1, "maxproof", 1, "store", 1), Thorough: p("threads", 3, "logs", 2, "signers", 1, "maxproof", 1, "store", 1), Covers: concCovers},
 	}})
+	reg(&checkSpec{ID: "C08", Assumptions: append([]string{"the stored checkpoint, if any, is a checkpoint of the same honest log (representation invariant; its preservation by every accepted update is the first obligation)", "witness signers do not fail"}, commonAssumptions...), Runs: []runSpec{
+		updRun(updQ, updT),
+		{Harness: pkgWitness + ".VerifHonestStep", Quick: p("n", 8, "signers", 2, "vc_inline", 1), Thorough: p("n", 32, "signers", 2, "vc_inline", 1), Covers: []string{"honest/growth-accepted", "honest/first-use-accepted", "honest/refresh-accepted"}},
+		{Harness: pkgWitness + ".VerifVCComplete", Quick: p("n", 8, "vc_inline", 1), Thorough: p("n", 32, "vc_inline", 1), Covers: []string{"vc/nontrivial-proof"}},
+	}})
 	reg(&checkSpec{ID: "vc", Runs: vcRuns(), Assumptions: commonAssumptions})
 	reg(&checkSpec{ID: "litmus", Runs: []runSpec{
 		{Harness: pkgLitmus + ".Arith", Covers: []string{"L/cover-gt", "L/neg-int"}},
